@@ -1,6 +1,7 @@
 import MgProof.C09.AvlInsert
 import MgProof.C09.AvlRemove
 import MgProof.C09.AvlCheck
+import MgProof.C09.AvlParent
 import MgProof.C09.HashLemmas
 import MgProof.C09.TrieLemmas
 import MgProof.C09.MapLemmas
@@ -20,9 +21,15 @@ table: every hash function and every table size; trie: every key over the bytes 
 model is of the code with fixes/C09-trie-unsigned-index.patch; the unpatched index is negative
 for bytes ≥ 0x80, see `trie_signed_index_negative`).
 
+Parent links: every AVL node of the model carries its identity (allocation number) and its
+stored parent pointer, and the model performs exactly the parent assignments of the C code;
+`Linked` (root's parent NULL, every other node points to the node it hangs under, no node twice)
+is proved for every reachable tree, and the dump compared after every operation contains both
+fields of every real node.
+
 Not covered by the theorems (checked on the real structure by the harness after every
-operation): parent-link consistency of the AVL nodes and `prev` links of the hash chains — the
-functional models have no back pointers; node allocation (malloc / pool) is assumed to succeed.
+operation): the `prev` links of the hash chains — the chain model is a list; node allocation
+(malloc / pool) is assumed to succeed and to hand out a block that is not in use.
 -/
 namespace MgProof.C09
 open MgModel.C09
@@ -33,30 +40,36 @@ open MgModel.C09
 recursively -/
 def Bst : T → Prop
   | .nil => True
-  | .node l k _ _ r =>
+  | .node l k _ _ r _ _ =>
     Bst l ∧ Bst r ∧ (∀ p ∈ T.toList l, p.1 < k) ∧ (∀ p ∈ T.toList r, k < p.1)
 
 theorem bst_iff_sorted : ∀ t : T, Bst t ↔ Sorted t := by
   intro t
   induction t with
   | nil => simp [Bst, Sorted]
-  | node l k v b r ihl ihr => rw [sorted_node, ← ihl, ← ihr]; rfl
+  | node l k v b r i p ihl ihr => rw [sorted_node, ← ihl, ← ihr]; rfl
 
 /-- the structural clause of the property: search tree + at every node
 `|height l − height r| ≤ 1` and `balance = height r − height l` exactly (`Avl`) -/
 def AvlOk (t : T) : Prop := Bst t ∧ Avl t
 
+/-- the pointer clause of the property on a tree whose allocated nodes are numbered `0 … next−1`:
+the root's parent pointer is NULL, every other node's parent pointer is the node it hangs under,
+and no node occurs twice (the identities in the tree are distinct and were all allocated) -/
+def Linked (t : T) (next : Nat) : Prop :=
+  ParentOk none t ∧ (T.ids t).Nodup ∧ ∀ i ∈ T.ids t, i < next
+
 /-- **C09, AVL insert.** From every well-formed tree, for every key and value:
 `muggle_avl_tree_insert` runs without a NULL dereference, rejects a key that is present (tree
 unchanged), otherwise stores the association; the result is again a search tree with height
 differences ≤ 1 and exact balance factors, and every other key maps as before. -/
-theorem avl_insert {t : T} (h : AvlOk t) (x : Int) (xv : Nat) :
-    ∃ t' ok, T.insert t x xv = .ok (t', ok) ∧ AvlOk t' ∧
+theorem avl_insert {t : T} (h : AvlOk t) (x : Int) (xv : Nat) (fresh : Nat) :
+    ∃ t' ok, T.insert t x xv fresh = .ok (t', ok) ∧ AvlOk t' ∧
       ok = (T.find t x).isNone ∧ (ok = false → t' = t) ∧
       (∀ y, T.find t' y = if ok = true ∧ y = x then some xv else T.find t y) ∧
       T.size t' = T.size t + ok.toNat := by
   obtain ⟨t', ok, e, ha, hs, hok, hun, hf, hlen⟩ :=
-    insert_spec h.2 ((bst_iff_sorted t).mp h.1) x xv
+    insert_spec h.2 ((bst_iff_sorted t).mp h.1) x xv fresh
   refine ⟨t', ok, e, ⟨(bst_iff_sorted t').mpr hs, ha⟩, hok, hun, hf, ?_⟩
   rw [size_eq_length, size_eq_length]; exact hlen
 
@@ -73,28 +86,93 @@ theorem avl_remove {t : T} (h : AvlOk t) (x : Int) :
   refine ⟨t', ok, e, ⟨(bst_iff_sorted t').mpr hs, ha⟩, hok, hun, hf, ?_⟩
   rw [size_eq_length, size_eq_length]; exact hlen
 
-/-- the tree represents the map `m` and is well formed -/
-def AvlRefines (t : T) (m : Map Int) : Prop := AvlOk t ∧ ∀ y, T.find t y = m.get y
+/-- **C09, parent links, insert.** Whatever `insert` returns, the parent pointers it leaves are
+consistent (the new node points to the leaf it was hung under; every rotation re-points the
+three or four links it moves) and the only new node is the freshly allocated one. -/
+theorem avl_insert_linked {t t' : T} {next : Nat} {ok : Bool} (x : Int) (xv : Nat)
+    (e : T.insert t x xv next = .ok (t', ok)) (h : Linked t next) :
+    Linked t' (if ok then next + 1 else next) := by
+  unfold T.insert at e
+  cases e1 : T.ins x xv next none t with
+  | error y => rw [e1] at e; cases e
+  | ok o =>
+    rw [e1] at e
+    cases o with
+    | none =>
+      injection e with e; injection e with h1 h2; subst h1; subst h2
+      exact h
+    | some q =>
+      obtain ⟨t0, g⟩ := q
+      injection e with e; injection e with h1 h2; subst h1; subst h2
+      obtain ⟨hp, l1, l2, i1, i2⟩ := ins_parent x xv next t none t0 g e1 h.1
+      obtain ⟨_, hnd, hlt⟩ := h
+      rw [i1] at hnd hlt
+      refine ⟨hp, ?_, ?_⟩
+      · rw [i2]
+        rw [List.nodup_append] at hnd ⊢
+        obtain ⟨n1, n2, n3⟩ := hnd
+        refine ⟨n1, List.nodup_cons.mpr ⟨?_, n2⟩, ?_⟩
+        · intro hm; exact absurd (hlt next (List.mem_append_right _ hm)) (Nat.lt_irrefl _)
+        · intro a ha b hb
+          rcases List.mem_cons.mp hb with rfl | hb
+          · intro hab; subst hab
+            exact absurd (hlt _ (List.mem_append_left _ ha)) (Nat.lt_irrefl _)
+          · exact n3 a ha b hb
+      · intro i hi
+        rw [i2] at hi
+        simp only [if_true]
+        rcases List.mem_append.mp hi with hi | hi
+        · exact Nat.lt_succ_of_lt (hlt i (List.mem_append_left _ hi))
+        · rcases List.mem_cons.mp hi with rfl | hi
+          · exact Nat.lt_succ_self _
+          · exact Nat.lt_succ_of_lt (hlt i (List.mem_append_right _ hi))
+
+/-- **C09, parent links, remove.** `remove` (key/value swapped down to a leaf, the leaf unlinked,
+retracing with rotations) leaves consistent parent pointers; when the key was present exactly
+one node left the tree and no node was duplicated. -/
+theorem avl_remove_linked {t t' : T} {next : Nat} {ok : Bool} (x : Int)
+    (e : T.remove t x = .ok (t', ok)) (h : Linked t next) :
+    Linked t' next ∧ (T.ids t').length + ok.toNat = (T.ids t).length := by
+  unfold T.remove at e
+  cases e1 : T.del x t with
+  | error y => rw [e1] at e; cases e
+  | ok o =>
+    rw [e1] at e
+    cases o with
+    | none =>
+      injection e with e; injection e with h1 h2; subst h1; subst h2
+      exact ⟨h, by simp⟩
+    | some q =>
+      obtain ⟨t0, g⟩ := q
+      injection e with e; injection e with h1 h2; subst h1; subst h2
+      obtain ⟨hp, hsub, hlen⟩ := del_parent x t none t0 g e1 h.1
+      exact ⟨⟨hp, h.2.1.sublist hsub, fun i hi => h.2.2 i (hsub.subset hi)⟩, by simpa using hlen⟩
+
+/-- the tree represents the map `m`, is well formed, and its pointers are consistent -/
+def AvlRefines (s : AvlSt) (m : Map Int) : Prop :=
+  AvlOk s.1 ∧ Linked s.1 s.2 ∧ ∀ y, T.find s.1 y = m.get y
 
 /-- one API call: same observation as the reference map, relation kept -/
-theorem avl_step_refines {t : T} {m : Map Int} (r : AvlRefines t m) (op : Op Int) :
-    ∃ t', avlStep t op = .ok (t', (specStepReject m op).2) ∧
-      AvlRefines t' (specStepReject m op).1 := by
-  obtain ⟨hok, hf⟩ := r
+theorem avl_step_refines {s : AvlSt} {m : Map Int} (r : AvlRefines s m) (op : Op Int) :
+    ∃ s', avlStep s op = .ok (s', (specStepReject m op).2) ∧
+      AvlRefines s' (specStepReject m op).1 := by
+  obtain ⟨t, next⟩ := s
+  obtain ⟨hok, hlk, hf⟩ := r
+  simp only at hok hlk hf
   cases op with
   | ins k v =>
-    obtain ⟨t', ok, e, hok', hflag, _, hfind, _⟩ := avl_insert hok k v
+    obtain ⟨t', ok, e, hok', hflag, _, hfind, _⟩ := avl_insert hok k v next
     obtain ⟨p1, p2⟩ := putNew_spec m k v
-    refine ⟨t', ?_, hok', ?_⟩
+    refine ⟨(t', if ok then next + 1 else next), ?_, hok', avl_insert_linked k v e hlk, ?_⟩
     · simp only [avlStep, e, specStepReject, p1, ← hf k, ← hflag]
     · intro y
       simp only [specStepReject]
       rw [hfind y, p2 y, ← hf k, ← hf y, hflag]
-  | find k => exact ⟨t, by simp [avlStep, specStepReject, hf k], hok, hf⟩
+  | find k => exact ⟨(t, next), by simp [avlStep, specStepReject, hf k], hok, hlk, hf⟩
   | rm k =>
     obtain ⟨t', ok, e, hok', hflag, _, hfind, _⟩ := avl_remove hok k
     obtain ⟨p1, p2⟩ := erase_spec m k
-    refine ⟨t', ?_, hok', ?_⟩
+    refine ⟨(t', next), ?_, hok', (avl_remove_linked k e hlk).1, ?_⟩
     · simp only [avlStep, e, specStepReject, p1, ← hf k, ← hflag]
     · intro y
       simp only [specStepReject]
@@ -104,26 +182,26 @@ theorem avl_step_refines {t : T} {m : Map Int} (r : AvlRefines t m) (op : Op Int
 any keys (duplicates, absent keys), started on the empty tree: no call fails, every call
 returns exactly what the reference map returns (find: the latest stored value or nothing;
 insert: rejected iff the key is present; remove: removes exactly that association), and the
-final tree is a search tree with height differences ≤ 1 and exact balance factors that
-represents the reference map. -/
-theorem avl_history (ops : List (Op Int)) : ∀ {t : T} {m : Map Int}, AvlRefines t m →
-    ∃ t', runE avlStep t ops = .ok (t', (specRun specStepReject m ops).2) ∧
-      AvlRefines t' (specRun specStepReject m ops).1 := by
+final tree is a search tree with height differences ≤ 1, exact balance factors and consistent
+parent links that represents the reference map. -/
+theorem avl_history (ops : List (Op Int)) : ∀ {s : AvlSt} {m : Map Int}, AvlRefines s m →
+    ∃ s', runE avlStep s ops = .ok (s', (specRun specStepReject m ops).2) ∧
+      AvlRefines s' (specRun specStepReject m ops).1 := by
   induction ops with
-  | nil => intro t m r; exact ⟨t, rfl, r⟩
+  | nil => intro s m r; exact ⟨s, rfl, r⟩
   | cons op ops ih =>
-    intro t m r
-    obtain ⟨t1, e1, r1⟩ := avl_step_refines r op
-    obtain ⟨t2, e2, r2⟩ := ih r1
-    exact ⟨t2, by simp only [runE, e1, e2, specRun], r2⟩
+    intro s m r
+    obtain ⟨s1, e1, r1⟩ := avl_step_refines r op
+    obtain ⟨s2, e2, r2⟩ := ih r1
+    exact ⟨s2, by simp only [runE, e1, e2, specRun], r2⟩
 
-theorem avl_empty_refines : AvlRefines .nil [] :=
-  ⟨⟨trivial, trivial⟩, fun _ => rfl⟩
+theorem avl_empty_refines : AvlRefines (.nil, 0) [] :=
+  ⟨⟨trivial, trivial⟩, ⟨trivial, List.nodup_nil, fun _ h => absurd h (by simp [T.ids])⟩, fun _ => rfl⟩
 
 /-- `avl_history` from `muggle_avl_tree_init` -/
 theorem avl_history_from_init (ops : List (Op Int)) :
-    ∃ t', runE avlStep .nil ops = .ok (t', (specRun specStepReject ([] : Map Int) ops).2) ∧
-      AvlRefines t' (specRun specStepReject ([] : Map Int) ops).1 :=
+    ∃ s', runE avlStep (.nil, 0) ops = .ok (s', (specRun specStepReject ([] : Map Int) ops).2) ∧
+      AvlRefines s' (specRun specStepReject ([] : Map Int) ops).1 :=
   avl_history ops avl_empty_refines
 
 /-- the in-order traversal lists exactly the represented associations, in key order -/
@@ -140,9 +218,12 @@ theorem avl_toList_sorted {t : T} (h : AvlOk t) :
 
 /-- the executable check that the driver prints for `achk` — and that the harness recomputes
 from the real `left/right/balance` fields after every operation — is exactly `AvlOk` -/
-theorem avl_check_iff (t : T) : T.wellFormed none none t = true ↔ AvlOk t := by
-  rw [wellFormed_top, AvlOk, bst_iff_sorted]
-  exact And.comm
+theorem avl_check_iff (t : T) :
+    (T.wellFormed none none t && T.parentsOk none t) = true ↔ (AvlOk t ∧ ParentOk none t) := by
+  rw [Bool.and_eq_true, wellFormed_top, parentsOk_iff, AvlOk, bst_iff_sorted]
+  constructor
+  · rintro ⟨⟨a, b⟩, c⟩; exact ⟨⟨b, a⟩, c⟩
+  · rintro ⟨⟨b, a⟩, c⟩; exact ⟨⟨a, b⟩, c⟩
 
 /-- **C09, "stays balanced" quantified.** A well-formed tree of height `h` holds at least
 `fib (h+2) − 1` associations: the height is logarithmic in the size. -/
@@ -154,7 +235,7 @@ theorem avl_size_lt_two_pow_height : ∀ t : T, T.size t < 2 ^ T.height t := by
   intro t
   induction t with
   | nil => simp [T.size]
-  | node l k v b r ihl ihr =>
+  | node l k v b r i p ihl ihr =>
     simp only [T.size, height_node]
     have h1 : 2 ^ T.height l ≤ 2 ^ max (T.height l) (T.height r) :=
       Nat.pow_le_pow_right (by omega) (Nat.le_max_left ..)
@@ -351,23 +432,25 @@ theorem trie_signed_index_7bit (b : UInt8) (h : b < 128) : cIndexSigned b = b.to
 
 /-! ## non-vacuity: concrete, non-trivial states satisfy the hypotheses -/
 
-example : runE avlStep .nil
+example : runE avlStep (.nil, 0)
       [.ins 3 30, .ins 1 10, .ins 2 20, .ins 2 99, .find 2, .rm 3, .find 3, .rm 7] =
-    .ok (.node (.node .nil 1 10 0 .nil) 2 20 (-1) .nil,
+    .ok ((.node (.node .nil 1 10 0 .nil 1 (some 2)) 2 20 (-1) .nil 2 none, 3),
       [.flag true, .flag true, .flag true, .flag false, .val (some 20), .flag true,
        .val none, .flag false]) ∧
-    AvlOk (.node (.node .nil 1 10 0 .nil) 2 20 (-1) .nil) := by
-  have e : runE avlStep .nil
+    AvlOk (.node (.node .nil 1 10 0 .nil 1 (some 2)) 2 20 (-1) .nil 2 none) ∧
+    Linked (.node (.node .nil 1 10 0 .nil 1 (some 2)) 2 20 (-1) .nil 2 none) 3 := by
+  have e : runE avlStep (.nil, 0)
       [.ins 3 30, .ins 1 10, .ins 2 20, .ins 2 99, .find 2, .rm 3, .find 3, .rm 7] =
-    .ok (.node (.node .nil 1 10 0 .nil) 2 20 (-1) .nil,
+    .ok ((.node (.node .nil 1 10 0 .nil 1 (some 2)) 2 20 (-1) .nil 2 none, 3),
       [.flag true, .flag true, .flag true, .flag false, .val (some 20), .flag true,
        .val none, .flag false]) := by rfl
-  obtain ⟨t', e', r⟩ := avl_history_from_init
+  obtain ⟨s', e', r⟩ := avl_history_from_init
     [.ins 3 30, .ins 1 10, .ins 2 20, .ins 2 99, .find 2, .rm 3, .find 3, .rm 7]
   rw [e] at e'
   injection e' with e'
   injection e' with e1 _
-  exact ⟨e, e1 ▸ r.1⟩
+  subst e1
+  exact ⟨e, r.1, r.2.1⟩
 
 /-- hash table with the worst hash function (everything collides) and 8 buckets -/
 example : ∃ t : HT Nat, HT.init 8 0 = some t ∧ ∃ t',
